@@ -185,10 +185,14 @@ func init() {
 			return nil
 		},
 		"time.runtimeNano": func(ex *Exec, fr *frame, args []Val) Val { return Const(64, 1) },
-		// the wall clock is an environment input; the only use in the encoded code is the seed of the regex
-		// example generator (reggen), whose output is not part of any observed result
+		// the wall clock is an environment input (in the unchanged code its only use is the default seed of
+		// the regex example generator, which the library then overrides with a fixed seed)
 		"time.now": func(ex *Exec, fr *frame, args []Val) Val {
-			return Tuple{Const(64, 1700000000), Const(32, 0), Const(64, 1)}
+			// every reading of the clock gives a later instant (as in a real process): a result that depends
+			// on the clock differs between two runs of a self-composition harness, and natively too
+			ex.clockReads++
+			k := uint64(ex.clockReads)
+			return Tuple{Const(64, 1700000000+k*7), Const(32, (k*123456789)%1000000000), Const(64, 1+k*7123456789)}
 		},
 		// json.Unmarshal of a concrete JSON string literal into a *string (schema library: regex constraint)
 		"encoding/json.Unmarshal": func(ex *Exec, fr *frame, args []Val) Val {
